@@ -4,7 +4,7 @@ From Coq.Strings Require Import Byte.
 Import ListNotations.
 From GA.Base Require Import Bytes Case Align CorrBase.
 From GA.Gen Require Import Subst Alpha.
-From GA.Spec Require Import Local.
+From GA.Spec Require Import Local EDNAFULL.
 From GA.Model Require Import SW.
 Local Open Scope Z_scope.
 
@@ -37,9 +37,15 @@ Definition spec_sub (c : case) : byte -> byte -> Z :=
   let which := pick_matrix (unbs (c_s1 c)) (unbs (c_s2 c)) in
   fun a b =>
     if c_usemat c then
-      match char_pos which a, char_pos which b with
-      | Some i, Some j => sub_entry which i j
-      | _, _ => NEG
+      (* nucleotides: the published EDNAFULL table (Spec/EDNAFULL.v), independent of the tables of the code;
+         letters outside it (U, X) and proteins: the regenerated tables *)
+      match (if Z.eqb which 1 then ednafull (to_upper a) (to_upper b) else None) with
+      | Some y => 2 * y
+      | None =>
+          match char_pos which a, char_pos which b with
+          | Some i, Some j => sub_entry which i j
+          | _, _ => NEG
+          end
       end
     else if beqb a b then c_match c else c_mismatch c.
 
